@@ -70,6 +70,20 @@ static void ParamError(Boolean InEnv, char* Arg) {
 #define BufferSize 4096
 static Byte Buffer[BufferSize];
 
+/* number of bytes in [First, First + Len) that pass the -m byte lane filter;
+   any four consecutive byte addresses hold 4 / SizeDiv of them */
+
+static LongWord LaneBytes(LongWord First, LongWord Len) {
+    LongWord Result = (Len / 4) * (4 / SizeDiv), z;
+
+    for (z = Len - (Len % 4); z < Len; z++) {
+        if (((First + z) & ANDMask) == ANDEq) {
+            Result++;
+        }
+    }
+    return Result;
+}
+
 static void OpenTarget(void) {
     LongWord Rest, Trans, AHeader;
 
@@ -77,7 +91,7 @@ static void OpenTarget(void) {
     if (!TargFile) {
         ChkIO(TargName);
     }
-    RealFileLen = ((StopAdr - StartAdr + 1) * MaxGran) / SizeDiv;
+    RealFileLen = LaneBytes(StartAdr * MaxGran, (StopAdr - StartAdr + 1) * MaxGran);
 
     AHeader = abs(StartHeader);
     if (StartHeader != 0) {
@@ -256,7 +270,8 @@ static void ProcessFile(char const* FileName, LongWord Offset) {
                 /* in Zieldatei an passende Stelle */
 
                 if (fseek(TargFile,
-                          (((ErgStart - StartAdr) * Gran) / SizeDiv) + abs(StartHeader),
+                          LaneBytes(StartAdr * Gran, (ErgStart - StartAdr) * Gran)
+                                  + abs(StartHeader),
                           SEEK_SET)
                     == -1) {
                     ChkIO(TargName);
